@@ -37,8 +37,12 @@ def run(tier):
     nh = 2 if q else 3
     res = chrun.run_jobs([chrun.Job(M, 'hist', 300 if q else 2400, subst={'NHIST = 2': f'NHIST = {nh}', 'PART = -1': f'PART = {p}'}, label=f'hist[first op {p}]', twin=(p == 0)) for p in range(8)])
     chrun.settle(chk, res, classify=lambda r_: 'history:result-depends-on-prior-calls')
+    # ---- re-entrant half: a complete inner call runs while the outer call is in progress (one thread) ----
+    res = chrun.run_jobs([chrun.Job(M, 'reent', 300 if q else 1200, label='re-entrant call from the input stream\'s read()', twin=True)])
+    chrun.settle(chk, res, classify=lambda r_: 'reentrancy:result-depends-on-a-call-made-while-this-one-is-in-progress')
     chk.bounds = dict(threads='2 (quick) / 2 and 3 (thorough) threads, all interleavings of the translated statements; one source statement = one atomic step',
                       history=f'every sequence of {nh} prior calls from a pool of 8 (ok / raising / abandoned parsestream / abandoned tokenize / add_keywords + default_initialization / clear + default_initialization / split / format) before parse, split, format, tokenize of 2 scripts',
+                      reentrancy='each of parse / split / format / parsestream on 3 scripts given as a text stream whose read() makes one complete inner call (the 8 pool operations, or 4 scripts that end inside an open block/parenthesis/string through the same and the next entry point): result equals the plain-stream result',
                       outside='concurrent parse()/format() calls on several threads (no engine here models Python thread interleavings inside the pipeline); statement-internal races (bytecode granularity)')
     chk.states = 1
     chk.assumptions += ['atomicity: one statement of get_default_instance / default_initialization is one step (coarser than bytecode, finer than the lock)',
